@@ -219,10 +219,18 @@ def make_observe(g, m, cfg):
     R = g.r
     op = {"op": "observe", "ta": R.pick([25.0, 25.0, -40.0, 0.0, 60.0, 85.0]), "sh": R.randint(1, 10**6), "kw": dict(OBS_KW)}
     if cfg["focus"] == "C12" and R.chance(0.3):
-        op["skew"] = g.r.pick([
-            {"dir": "newer", "version": "1.10.1"}, {"dir": "newer", "version": "2.0.0"}, {"dir": "newer", "version": "1.11.0"},
-            {"dir": "older", "version": "1.9.9"}, {"dir": "older", "version": "1.0.0"}, {"dir": "older", "version": "1.10.0"},
-        ])
+        import sysloss
+
+        parts = [int(x) for x in sysloss.__version__.split(".")[:3]]
+        while len(parts) < 3:
+            parts.append(0)
+        ma, mi, pa = parts
+        newer = ["%d.%d.%d" % (ma, mi, pa + 1), "%d.%d.0" % (ma, mi + 1), "%d.0.0" % (ma + 1), "%d.%d.%d" % (ma, mi + 10, 0)]
+        older = ["%d.%d.%d" % (ma, mi, pa), "1.0.0", "%d.%d.%d" % (ma, max(mi - 1, 0), 99) if mi > 0 else "0.9.0", "%d.%d.%d" % (max(ma - 1, 0), 99, 0) if ma > 0 else "0.1.0"]
+        if R.chance(0.5):
+            op["skew"] = {"dir": "newer", "version": R.pick(newer)}
+        else:
+            op["skew"] = {"dir": "older", "version": R.pick(older)}
     if cfg["focus"] in ("C01", "C02") and R.chance(0.15):
         # caller-chosen tolerances: the table must be converged to what was asked
         op["kw"]["vtol"] = 10.0 ** R.randint(-8, -3)
